@@ -70,6 +70,13 @@ def work(task):
     # lookups
     cases = []
     syms = [u["symbol"] for u in ent["units"]]
+    # the declared symbols (tables / generated definition) are probed too: a unit that reports another text as its
+    # symbol is still consistent with itself, but the symbol it was declared with no longer finds it
+    has_ref_d, dents = task["decl"] if task.get("decl") is not None else declared.declared_units(ty)
+    dsym = {}
+    for e in dents:
+        dsym.setdefault(e["symbol"], []).append(e["variant"])
+    syms = syms + [x for x in dsym if x not in syms]
     probes = {""}
     for s in syms:
         probes |= near_misses(rng, s, syms, task["nrand"])
@@ -101,7 +108,7 @@ def work(task):
             sprobes.add(cl.safe_amounts(rng, b, ent, 0, 1, ["safe_random"])[0][0])
         for p in sorted(sprobes):
             cases.append({"kind": "scale", "x": p, "reqs": [{"op": "scale", "ty": ty, "x": p}]})
-    fw.run_cases(part, task["bin"], cases, judge, {"backend": b, "ty": ty, "entry": ent, "module": "c09"})
+    fw.run_cases(part, task["bin"], cases, judge, {"backend": b, "ty": ty, "entry": ent, "module": "c09", "dsym": dsym})
     return part
 
 
@@ -203,6 +210,17 @@ def judge(part, case, resps, ctx):
         for f in ("from_symbol", "unit_from_symbol"):
             if r[f] != want:
                 viol(part, b, ty, "symbol_lookup", "%s(%r) = %s, first unit in iteration order with that symbol is %s" % (f, case["t"], r[f], want), case, resps, extra=f)
+        dsym = ctx.get("dsym")
+        if dsym is None:
+            dsym = {}
+            for e in declared.declared_units(ty)[1] if not ty.startswith("gexec") else []:
+                dsym.setdefault(e["symbol"], []).append(e["variant"])
+        if case["t"] in dsym:
+            # first unit in the observed iteration order among those DECLARED with this symbol
+            wd = next((u["dbg"] for u in ent["units"] if u["dbg"] in dsym[case["t"]]), None)
+            for f in ("from_symbol", "unit_from_symbol"):
+                if wd is not None and r[f] != wd:
+                    viol(part, b, ty, "declared_symbol_lookup", "%s(%r) = %s, but %s is declared with that symbol" % (f, case["t"], r[f], wd), case, resps, extra=f)
         part.cell(b, ty, "sym", case["t"])
         if want is not None:
             part.sample({"backend": b, "type": ty, "request": case["reqs"][0], "response": r, "expectation": want}, limit=1)
